@@ -407,8 +407,12 @@ func runC13(c *Ctx) {
 				// Path shares a call origin with the path written by an endorsement write reached from f
 				okPath := false
 				if pathVal != nil {
+					// the entry may be built in a helper that is handed the basename: origins are followed to the
+					// helper's call sites, and the write is looked for in the helper and in its callers
+					lsl2 := flow.NewSlicer(c.P)
+					lsl2.LiftParams = 2
 					po := map[ssa.Value]bool{}
-					for _, o := range sl.Origins(pathVal) {
+					for _, o := range lsl2.Origins(pathVal) {
 						if _, isCall := o.(*ssa.Call); isCall {
 							po[o] = true
 						}
@@ -416,11 +420,23 @@ func runC13(c *Ctx) {
 					if pc, ok := pathVal.(*ssa.Extract); ok {
 						po[pc.Tuple] = true
 					}
-					// calls in f whose callee reaches an endorsement write: their string/[]string args
-					for _, call := range callsIn(f, func(call ssa.CallInstruction) bool {
-						cal := call.Common().StaticCallee()
-						return cal != nil && relevant[cal] && !probes[cal]
-					}) {
+					scope := []*ssa.Function{f}
+					if node := c.P.CallGraph().Nodes[f]; node != nil {
+						for _, e := range node.In {
+							if e.Site != nil && e.Site.Common().StaticCallee() == f && load.RelPkg(e.Caller.Func) == "endorse" && !c.isTestFunc(e.Caller.Func) {
+								scope = append(scope, e.Caller.Func)
+							}
+						}
+					}
+					var wcalls []ssa.CallInstruction
+					for _, sf := range scope {
+						wcalls = append(wcalls, callsIn(sf, func(call ssa.CallInstruction) bool {
+							cal := call.Common().StaticCallee()
+							return cal != nil && relevant[cal] && !probes[cal] && cal != f
+						})...)
+					}
+					// calls whose callee reaches an endorsement write: their string/[]string args
+					for _, call := range wcalls {
 						for _, a := range call.Common().Args {
 							ts := a.Type().String()
 							if ts != "string" && ts != "[]string" {
